@@ -265,6 +265,7 @@ package coroutines
 //@ requires cmd.State == promise.Resolved || cmd.State == promise.Rejected || cmd.State == promise.Canceled || cmd.State == promise.Timedout
 //@ requires cmd.State == promise.Timedout ==> false
 //@ ensures err != nil ==> !result0
+//@ ensures [await C13 C15 C01] err != nil ==> kerr.platform(errcode(err))
 
 //@ func createPromise$1
 //@ props C01 C08 C10
